@@ -402,7 +402,7 @@ fn accum_reset_finish<const L: usize>() {
 
 // ----- instances --------------------------------------------------------------------------
 
-//@ harness props=C09,C10,C01,C07 tier=quick unwind=12 mem_gb=4 timeout=600
+//@ harness props=C09,C10,C01,C07,C16 tier=quick unwind=12 mem_gb=4 timeout=600
 //@ bound: circular window D=3 cursor=1 full (any lap count), copy length<=3, dist 1..=usize::MAX, memlimit>=D
 #[cfg_attr(kani, kani::proof)]
 #[cfg_attr(kani, kani::stub(std::fmt::format, crate::verif_common::stub_format))]
@@ -411,7 +411,7 @@ pub fn circ_lz_full_d3_c1() {
     circ_lz_full::<3, 1>()
 }
 
-//@ harness props=C09,C10,C01,C07 tier=quick unwind=12 mem_gb=4 timeout=600
+//@ harness props=C09,C10,C01,C07,C16 tier=quick unwind=12 mem_gb=4 timeout=600
 //@ bound: circular window D=3 cursor=0 full, copy length<=3, any dist
 #[cfg_attr(kani, kani::proof)]
 #[cfg_attr(kani, kani::stub(std::fmt::format, crate::verif_common::stub_format))]
@@ -465,7 +465,7 @@ pub fn circ_lz_full_d6_c4() {
     circ_lz_full::<6, 4>()
 }
 
-//@ harness props=C09,C01,C04 tier=quick unwind=12 mem_gb=4 timeout=600
+//@ harness props=C09,C01,C04,C15 tier=quick unwind=12 mem_gb=4 timeout=600
 //@ bound: last_n/last_or on circular window D=3 cursor=1 full, any dist
 #[cfg_attr(kani, kani::proof)]
 #[cfg_attr(kani, kani::stub(std::fmt::format, crate::verif_common::stub_format))]
@@ -474,7 +474,7 @@ pub fn circ_last_full_d3_c1() {
     circ_last_full::<3, 1>()
 }
 
-//@ harness props=C09,C01,C04 tier=quick unwind=12 mem_gb=4 timeout=600
+//@ harness props=C09,C01,C04,C15 tier=quick unwind=12 mem_gb=4 timeout=600
 //@ bound: last_n/last_or on circular window D=2 cursor=0 full, any dist
 #[cfg_attr(kani, kani::proof)]
 #[cfg_attr(kani, kani::stub(std::fmt::format, crate::verif_common::stub_format))]
